@@ -38,6 +38,7 @@ type stats struct {
 	Selects      int            `json:"selects"`
 	MapRanges    int            `json:"map_ranges"`
 	NetSeams     int            `json:"net_seams"`
+	AllocGuards  int            `json:"alloc_guards"`
 	Skipped      []string       `json:"skipped"`
 	PerPackage   map[string]int `json:"sites_per_package"`
 	Files        int            `json:"files"`
@@ -632,6 +633,59 @@ func loadPackage(root, rel string, yields bool) (*loaded, error) {
 	return l, nil
 }
 
+var sizes = types.SizesFor("gc", "amd64")
+
+// guardAllocs wraps the length/capacity arguments of make([]T, n[, c]), make(map, n) and
+// reflect.MakeSlice(t, n, c) in simrt.AllocGuard (see simrt: the sandbox has no memory limit).
+func guardAllocs(f *ast.File) int {
+	n := 0
+	wrap := func(e ast.Expr, elem int64) ast.Expr {
+		if bl, ok := e.(*ast.BasicLit); ok && bl.Kind == token.INT {
+			return e // small literal constants need no guard
+		}
+		n++
+		return rt("AllocGuard", e, &ast.BasicLit{Kind: token.INT, Value: strconv.FormatInt(elem, 10)})
+	}
+	ast.Inspect(f, func(nd ast.Node) bool {
+		c, ok := nd.(*ast.CallExpr)
+		if !ok {
+			return true
+		}
+		if id, ok := c.Fun.(*ast.Ident); ok && id.Name == "make" && len(c.Args) >= 2 {
+			if _, isBuiltin := info.Uses[id].(*types.Builtin); isBuiltin {
+				t := info.TypeOf(c.Args[0])
+				if t != nil {
+					switch u := t.Underlying().(type) {
+					case *types.Slice:
+						sz := sizes.Sizeof(u.Elem())
+						if sz < 1 {
+							sz = 1
+						}
+						for i := 1; i < len(c.Args); i++ {
+							c.Args[i] = wrap(c.Args[i], sz)
+						}
+					case *types.Map:
+						c.Args[1] = wrap(c.Args[1], 48)
+					}
+				}
+			}
+		}
+		if sel, ok := c.Fun.(*ast.SelectorExpr); ok && sel.Sel.Name == "MakeSlice" && len(c.Args) == 3 {
+			if id, ok := sel.X.(*ast.Ident); ok && id.Name == "reflect" {
+				c.Args[1] = wrap(c.Args[1], 16)
+				c.Args[2] = wrap(c.Args[2], 16)
+			}
+		}
+		if sel, ok := c.Fun.(*ast.SelectorExpr); ok && sel.Sel.Name == "MakeMapWithSize" && len(c.Args) == 2 {
+			if id, ok := sel.X.(*ast.Ident); ok && id.Name == "reflect" {
+				c.Args[1] = wrap(c.Args[1], 48)
+			}
+		}
+		return true
+	})
+	return n
+}
+
 func rewritePackage(l *loaded) error {
 	info = l.info
 	files, paths := l.files, l.paths
@@ -640,6 +694,8 @@ func rewritePackage(l *loaded) error {
 	for _, f := range files {
 		before := st.PerPackage[pkgName]
 		beforeNet := st.NetSeams
+		guards := guardAllocs(f)
+		st.AllocGuards += guards
 		for _, d := range f.Decls {
 			switch x := d.(type) {
 			case *ast.FuncDecl:
@@ -673,10 +729,10 @@ func rewritePackage(l *loaded) error {
 				}
 			}
 		}
-		if st.PerPackage[pkgName] == before && st.NetSeams == beforeNet {
+		if st.PerPackage[pkgName] == before && st.NetSeams == beforeNet && guards == 0 {
 			continue
 		}
-		if st.PerPackage[pkgName] != before {
+		if st.PerPackage[pkgName] != before || guards > 0 {
 			addImport(f)
 		}
 		keepDirectives(f)
@@ -836,6 +892,6 @@ func main() {
 		b, _ := json.MarshalIndent(st, "", " ")
 		_ = os.WriteFile(*statsOut, b, 0644)
 	}
-	fmt.Printf("vinstr: yields=%d go=%d locks=%d selects=%d mapranges=%d netseams=%d files=%d skipped=%d typeerrors=%d\n",
-		st.Yields, st.GoStmts, st.Locks, st.Selects, st.MapRanges, st.NetSeams, st.Files, len(st.Skipped), st.TypeErrors)
+	fmt.Printf("vinstr: yields=%d go=%d locks=%d selects=%d mapranges=%d netseams=%d allocguards=%d files=%d skipped=%d typeerrors=%d\n",
+		st.Yields, st.GoStmts, st.Locks, st.Selects, st.MapRanges, st.NetSeams, st.AllocGuards, st.Files, len(st.Skipped), st.TypeErrors)
 }
